@@ -19,6 +19,18 @@ SLASH_VTZ = ("BEGIN:VCALENDAR\r\nVERSION:2.0\r\nPRODID:prelude\r\nBEGIN:VTIMEZON
              "DTSTART;TZID=/%s:20240101T100000\r\nEND:VEVENT\r\nEND:VCALENDAR\r\n")
 
 
+def slash_zones(zones):
+    """parse, for each IANA id, a calendar whose VTIMEZONE names it with a leading slash and gives it deliberately wrong
+    (fixed +05:00) rules: the provider's own zone of that name must not be affected.  To be called after a provider switch
+    (which empties the VTIMEZONE cache)."""
+    from icalendar import Calendar
+    for z in zones:
+        try:
+            Calendar.from_ical(SLASH_VTZ % (z, z))
+        except ValueError:
+            pass
+
+
 def warm(ctx):
     from icalendar import Calendar, Event, Todo, Alarm, Component, Timezone, vRecur
     from icalendar.caselessdict import CaselessDict
